@@ -238,19 +238,21 @@ def run(ctx, scn):
         obs["problems"].append({"what": what, "got_len": len(g), "want_len": len(want), "first_diff_at": i, "got_near": repr(g[max(0, i - 20): i + 30]), "want_near": repr(want[max(0, i - 20): i + 30])})
 
     if obs["kind"] == "ok":
+        # the formatted value ($() and .out): a one-line output loses its trailing newline
+        want = text
+        lines = text.splitlines(keepends=True)
+        if len(lines) == 1:
+            want = lines[0].rstrip("\n")
+        textual = scn["payload"] != "binary"  # (a text view of arbitrary bytes is not specified)
         if form in ("dollar", "inject"):
-            want = text
-            lines = text.splitlines(keepends=True)
-            if len(lines) == 1:
-                want = lines[0].rstrip("\n")
             if ns.get("_r") != want:
                 problem("$() value", ns.get("_r") or "", want)
         else:
             if ns.get("_raw") != raw:
                 problem(".raw_out", ns.get("_raw") or b"", raw)
-            if form == "object" and ns.get("_out") != text:
-                problem(".out", ns.get("_out") or "", text)
-            if form == "iter" and "".join(ns.get("_it") or []) != text:
+            if form == "object" and textual and ns.get("_out") != want:
+                problem(".out", ns.get("_out") or "", want)
+            if form == "iter" and textual and "".join(ns.get("_it") or []) != text:
                 problem("iteration", "".join(ns.get("_it") or []), text)
             if ns.get("_rtn") != rc:
                 obs["ok"] = False
